@@ -481,6 +481,10 @@ func convToBasicNumber(source interface{}, target reflect.Type) (interface{}, er
 			n, err := intIn(math.MinInt64, math.MaxInt64)
 			return n, err
 		case reflect.Float32:
+			// the nearest float32 of the decimal itself (rounding its nearest float64 again can be off by one)
+			if f32, err := strconv.ParseFloat(v.String(), 32); err == nil || f32 != 0 {
+				return float32(f32), nil
+			}
 			return float32(f), nil
 		case reflect.Float64:
 			return float64(f), nil
